@@ -219,7 +219,7 @@ class Call(Contract):
                 given = {v for v in args if v is not None} | {v for v in kwargs.values()}
                 vs = [subs[d].val(the_idx(shp0)) if d in given else pvar(nat(P.names, d)) for d in range(D)]
                 x = z3.Const(ctx.fresh("x"), PV)
-                ctx.assume(z3.And(pconst(z3.RealVal(1)) == pone, z3.ForAll([x], pmul(pone, x) == x)))
+                ctx.assume(z3.And(pconst(z3.RealVal(1)) == pone, z3.ForAll([x], pmul(pone, x) == x), z3.ForAll([x], ppow(x, 0) == pone)))
                 SP = ctx.func("SP", I, Idx, PV)
                 k, i = z3.Int(ctx.fresh("k")), z3.Const(ctx.fresh("i"), Idx)
 
@@ -293,6 +293,8 @@ class Call(Contract):
                     for d in range(D):
                         out = out * rpow(pts[d], expo(P.row(t), d))
                     return out
+                xr = z3.Real(ctx.fresh("x"))
+                ctx.assume(z3.ForAll([xr], rpow(xr, 0) == 1))              # x ** 0 == 1 (also 0 ** 0, as in Python and numpy)
                 ctx.assume(z3.ForAll([i], S(0, i) == 0))
                 from engine.logic import unfold_at
                 ctx.assume(z3.ForAll([k, i], z3.Implies(k >= 1, S(k, i) == S(k - 1, i) + P.C(k - 1, i) * T(k - 1)),
